@@ -739,7 +739,9 @@ def _structural(t, ev, env):
             raise Unknown(f"operator {t[1]}")
         try:
             return _BIN[t[1]](ev(t[2]), ev(t[3]))
-        except (TypeError, ZeroDivisionError) as e:
+        except ZeroDivisionError:
+            raise ModelRaise("ZeroDivisionError") from None
+        except TypeError as e:
             raise Unknown(f"operator fails in the model: {e!r}") from None
     if k == "neg":
         return -ev(t[1])
